@@ -83,6 +83,29 @@ static void c13_iteration(long i) {
       c13_refuse_every_request(m, cn, 1);
     }
     fprintf(vh_out, "{\"e\":\"quiet\",\"live\":%ld,\"foreign\":%ld}\n", va.live, va.foreign_free + va.foreign_realloc);
+    /* declared counts and lengths that no allocator can satisfy (refused by size, or rejected before any request is made):
+     * whatever was obtained on the way is handed back */
+    static const uint64_t huge[] = {1ull << 27, 1ull << 32, 1ull << 59, (1ull << 60) - 1, 1ull << 60, 1ull << 61, 1ull << 62, 1ull << 63, ~0ull - 15, ~0ull};
+    for (unsigned hi = 0; hi < sizeof huge / sizeof *huge; hi++) {
+      for (int mt = 2; mt <= 5; mt++) {
+        unsigned char in[16] = {(unsigned char)(mt << 5 | 27)};
+        for (int b = 0; b < 8; b++) in[1 + b] = (unsigned char)(huge[hi] >> (56 - 8 * b));
+        memset(in + 9, 0x01, 7);
+        for (int wrap = 0; wrap < 2; wrap++) {
+          unsigned char w[20] = {0x82, 0x01};
+          memcpy(w + 2, in, 16);
+          struct cbor_load_result r;
+          cbor_item_t* it = NULL;
+          OP("load", 0, it = wrap ? cbor_load(w, 18, &r) : cbor_load(in, 16, &r));
+          if (it) OP("decref", 0, cbor_decref(&it));
+        }
+      }
+      cbor_item_t *ha = NULL, *hm = NULL;
+      OP("new_huge", 0, (ha = cbor_new_definite_array((size_t)huge[hi]), hm = cbor_new_definite_map((size_t)huge[hi])));
+      if (ha) OP("decref", 0, cbor_decref(&ha));
+      if (hm) OP("decref", 0, cbor_decref(&hm));
+    }
+    fprintf(vh_out, "{\"e\":\"quiet\",\"live\":%ld,\"foreign\":%ld}\n", va.live, va.foreign_free + va.foreign_realloc);
   }
   size_t n = vg_encoding(buf, 2048, 1 + (int)vh_randn(5));
   /* sometimes corrupt it: error paths release too */
